@@ -231,6 +231,7 @@ type Sched struct {
 	useMark  bool
 	dirty    []*Obj                 // value-keyed objects whose real state changes after the point (atomic words)
 	chans    map[uintptr]*chanModel // modelled channels (chan.go), scheduler goroutine only
+	mapRanges int                   // ranges over maps so far (SortedKeys), running thread only
 }
 
 var execSync byte
@@ -919,4 +920,25 @@ func fatal(format string, a ...interface{}) {
 // SortedKeys returns the string keys of a map in sorted order; the
 // instrumenter rewrites `range` over map-typed struct fields to iterate in this
 // order so that hash-iteration randomness cannot leak into the schedule.
-func SortedKeys(m interface{}) []string { return sortedKeys(m) }
+//
+// Go leaves the iteration order of a map unspecified and draws a new one for
+// every range statement, so no single order is "the" behaviour.  The order is
+// owned here: within one execution the first, third, ... range over a map with
+// more than one key runs in ascending key order, the second, fourth, ... in
+// descending order.  Code that needs two iterations of one map to agree, or
+// that depends on one particular order, therefore meets both orders in every
+// execution, and an execution is still a function of its choice sequence.
+//
+//go:norace
+func SortedKeys(m interface{}) []string {
+	keys := sortedKeys(m)
+	if s := cur; s != nil && len(keys) > 1 {
+		s.mapRanges++
+		if s.mapRanges%2 == 0 {
+			for i, j := 0, len(keys)-1; i < j; i, j = i+1, j-1 {
+				keys[i], keys[j] = keys[j], keys[i]
+			}
+		}
+	}
+	return keys
+}
